@@ -74,13 +74,15 @@ theorem saved_iff_differs_array (app : App) (hwf : app.WF) (s : State) (base : P
   saved_array_iff app hwf s base first len hi
 
 /-- **saved_value** for an array port (what "only differences" means for `name#N`): its line carries the current
-    values of the elements `0 … n-1` (option indices as symbols), where element `n-1` is the last one that differs
-    from its default; the elements behind it equal their defaults and are not written. -/
+    values of the elements `0 … n-1` (option indices as symbols), where element `n-1` is the last one that — as the
+    line spells it — differs from its default (`map_arg_vals` runs before `first_equal_index`: an rArrayOption element
+    holding an option's index is a symbol by then and never equals its int default; for the other kinds this is "the
+    last one that differs from its default"); the elements behind it equal their defaults and are not written. -/
 theorem saved_value_array (app : App) (hwf : app.WF) (s : State) (base : Path) (first len : Nat)
     (hi : Item.array base first len ∈ app.walk) (l : Line) (hl : l ∈ app.save s) (ha : l.addr = base) :
     ∃ n, 0 < n ∧ n ≤ len ∧
       l = ⟨base, .arr ((List.range n).map fun k => mapArgVal (app.param (first + k)).kind (s (first + k)))⟩ ∧
-      s (first + (n - 1)) ≠ evalDflt (app.param (first + (n - 1))) s ∧
+      mapArgVal (app.param (first + (n - 1))).kind (s (first + (n - 1))) ≠ evalDflt (app.param (first + (n - 1))) s ∧
       ∀ k, n ≤ k → k < len → s (first + k) = evalDflt (app.param (first + k)) s :=
   saved_array_value app hwf s base first len hi l hl ha
 
@@ -249,16 +251,63 @@ open Rtosc.Save.DiamondExample in
     `App.walkTilesB_sound`) evaluate to true on it -/
 example : dApp.kindOkB = true ∧ dApp.walkTilesB = true := by decide
 
-/-! ### known finding C12-K9: +infinity does not survive the text stages -/
+/-! ### non-vacuity, third application: an int port as enabling port, a line with two arguments -/
 
-/-- a savefile line as the text stages of the unchanged library hand it back: a float holding +infinity is
-    printed `inf (inf)`, which the scanner reads as the keyword of the 'I' argument followed by garbage — the
-    line does not scan (`-inf (-inf)` does) -/
-def scansBack (l : Line) : Bool :=
-  (match l.args with | .plain vs => vs | .arr vs => vs).all fun v => decide (v ≠ Val.flt 0x7f800000)
+/-- `/n` (rParamI, 0..3, default 0) enables the embedded sub-tree `/s/` (`rRecur(s, rEnabledBy(n))`): enabled = non-zero -/
+def gApp : App :=
+  { name := "g".toList,
+    params := [{ addr := "/n".toList, kind := .int (some 0) (some 3), dflt := .const (.int 0), guards := [], anc := [],
+                 canon := .int 0 },
+               { addr := "/s/a".toList, kind := .int none none, dflt := .const (.int 5), guards := [(0, false)], anc := [0],
+                 canon := .int 5 }],
+    walk := [.scalar 0, .scalar 1], apropos := fun _ => none }
 
-/-- trigger of C12-K9: a line of the savefile of state `s` carries +infinity -/
-def hasPosInf (app : App) (s : State) : Bool := (app.save s).any fun l => !scansBack l
+/-- with `/n = 2` the sub-tree is enabled and `/s/a 7` is stored and saved; `/s/a 7 8` (one argument more than the port
+    reads: `a::i`, the last alternative is a prefix of the type string) does the same -/
+example : gApp.save (gApp.run [("/n".toList, [.int 2]), ("/s/a".toList, [.int 7, .int 8])] gApp.init) =
+    [⟨"/n".toList, .plain [.int 2]⟩, ⟨"/s/a".toList, .plain [.int 7]⟩] := by decide +kernel
+
+/-- while `/n` is zero a write below it is ignored: nothing is saved -/
+example : gApp.save (gApp.run [("/s/a".toList, [.int 7])] gApp.init) = [] := by decide +kernel
+
+/-- writing zero to `/n` disables the sub-tree again: it is back at its defaults, only nothing is left to save -/
+example : gApp.save (gApp.run [("/n".toList, [.int 2]), ("/s/a".toList, [.int 7]), ("/n".toList, [.int 0])] gApp.init) = [] := by
+  decide +kernel
+
+/-- a toggle port takes `false 1` (its last alternative `F` is a prefix of the type string) but not `true 1` -/
+example : (Rtosc.Save.Example.exApp.dispatch "/t".toList [.bool true, .int 1] Rtosc.Save.Example.exApp.init).isNone = true ∧
+    (Rtosc.Save.Example.exApp.dispatch "/t".toList [.bool false, .int 1] Rtosc.Save.Example.exApp.init).isSome = true := by
+  decide +kernel
+
+/-! ### known finding C12-K9: +infinity and NaN do not survive the text stages -/
+
+/-- a float the unchanged library writes as a word that does not scan back: +infinity (`inf (inf)`) or a NaN
+    without sign bit (`nan (nan)`) — exponent all ones, sign bit clear.  (`-inf (-inf)` and `-nan (-nan)` do scan.) -/
+def unscannableFlt (b : UInt32) : Bool := decide (2139095040 ≤ b.toNat ∧ b.toNat < 2147483648)
+
+/-- no float of the line is +infinity or a NaN without sign bit (`inf (inf)` / `nan (nan)` do not scan) -/
+def fltScans (l : Line) : Bool :=
+  (match l.args with | .plain vs => vs | .arr vs => vs).all fun v =>
+    match v with | .flt b => !unscannableFlt b | _ => true
+
+/-- the elements of an array line are not a mixture of enumeration symbols and ints.  `map_arg_vals` replaces every
+    int that has a `map N` entry by its symbol, element by element: an `rArrayOption` port with one element holding
+    an option's index and another a value that is no option's index (the callback stores any int) is written
+    `[sine 7 tri]`; the scanner takes an array whose elements differ in type for a syntax error -/
+def uniformArr (l : Line) : Bool :=
+  match l.args with
+  | .plain _ => true
+  | .arr vs => !((vs.any fun v => match v with | .sym _ => true | _ => false) &&
+                 (vs.any fun v => match v with | .int _ => true | _ => false))
+
+/-- a savefile line as the text stages of the unchanged library hand it back: does it scan? -/
+def scansBack (l : Line) : Bool := fltScans l && uniformArr l
+
+/-- trigger of C12-K9: a line of the savefile of state `s` carries a float value that is +infinity or NaN -/
+def hasInfOrNaN (app : App) (s : State) : Bool := (app.save s).any fun l => !fltScans l
+
+/-- trigger of C12-K10: an array line of the savefile of state `s` mixes enumeration symbols and ints -/
+def hasMixedArray (app : App) (s : State) : Bool := (app.save s).any fun l => !uniformArr l
 
 /-- the file `load_from_file` gets to see when the text of `save_to_file` is scanned by the unchanged library -/
 def scannedFile (app : App) (rtoscVer appVer : Nat × Nat × Nat) (s : State) : File :=
@@ -277,7 +326,25 @@ def k9State : State := k9App.run [("/f".toList, [.flt 0x7f800000])] k9App.init
 
 example : k9App.Reachable k9State := ⟨_, rfl⟩
 
-theorem k9_trigger : hasPosInf k9App k9State = true := by decide +kernel
+theorem k9_trigger : hasInfOrNaN k9App k9State = true := by decide +kernel
+
+/-- the state reached by sending `/f nan` (quiet NaN, sign bit clear) -/
+def k9StateNaN : State := k9App.run [("/f".toList, [.flt 0x7fc00000])] k9App.init
+
+example : k9App.Reachable k9StateNaN := ⟨_, rfl⟩
+
+theorem k9_trigger_nan : hasInfOrNaN k9App k9StateNaN = true := by decide +kernel
+
+/-- **C12-K9 counterexample, NaN** (mirrors the unchanged library): the savefile of a reachable state that
+    holds a NaN is rejected when it is loaded back. -/
+theorem nan_not_restored_counterexample :
+    ¬ (∃ n, k9App.loadFile (scannedFile k9App (0, 3, 1) (1, 2, 3) k9StateNaN) k9App.init = .ok k9StateNaN n) := by
+  intro ⟨n, h⟩
+  have : k9App.loadFile (scannedFile k9App (0, 3, 1) (1, 2, 3) k9StateNaN) k9App.init = .fail := by
+    apply rejects_unparsable
+    decide +kernel
+  rw [this] at h
+  cases h
 
 /-- **C12-K9 counterexample** (mirrors the unchanged library): the savefile of a reachable state that holds
     +infinity is rejected when it is loaded back. -/
@@ -290,11 +357,44 @@ theorem posinf_not_restored_counterexample :
   rw [this] at h
   cases h
 
-/-- **load_save_restores through the text stages of the unchanged library, partial**: outside the trigger of
-    C12-K9 the scanned file is the saved file, and loading it restores the state. -/
+/-! ### known finding C12-K10: an rArrayOption line that mixes symbols and ints does not scan -/
+
+/-- one `rArrayOption(o, 2, rOptions(a, b))` port, both elements 0 (`a`) by default -/
+def k10App : App :=
+  { name := "k10".toList,
+    params := [{ addr := "/o0".toList, kind := .opt ["a".toList, "b".toList], dflt := .const (.int 0), guards := [], anc := [],
+                 canon := .int 0 },
+               { addr := "/o1".toList, kind := .opt ["a".toList, "b".toList], dflt := .const (.int 0), guards := [], anc := [],
+                 canon := .int 0 }],
+    walk := [.array "/o".toList 0 2], apropos := fun _ => none }
+
+/-- the state reached by `/o0 5` (no option's index: the callback stores any int) and `/o1 1` (`b`) -/
+def k10State : State := k10App.run [("/o0".toList, [.int 5]), ("/o1".toList, [.int 1])] k10App.init
+
+example : k10App.Reachable k10State := ⟨_, rfl⟩
+
+/-- the line is `/o [5 b]` -/
+example : k10App.save k10State = [⟨"/o".toList, .arr [.int 5, .sym "b".toList]⟩] := by decide +kernel
+
+theorem k10_trigger : hasMixedArray k10App k10State = true := by decide +kernel
+
+/-- **C12-K10 counterexample** (mirrors the unchanged library): the savefile of a reachable state in which an
+    rArrayOption port holds an option's index in one element and another int in another is rejected when it is
+    loaded back. -/
+theorem mixed_option_array_not_restored_counterexample :
+    ¬ (∃ n, k10App.loadFile (scannedFile k10App (0, 3, 1) (1, 2, 3) k10State) k10App.init = .ok k10State n) := by
+  intro ⟨n, h⟩
+  have : k10App.loadFile (scannedFile k10App (0, 3, 1) (1, 2, 3) k10State) k10App.init = .fail := by
+    apply rejects_unparsable
+    decide +kernel
+  rw [this] at h
+  cases h
+
+/-- **load_save_restores through the text stages of the unchanged library, partial**: outside the triggers of
+    C12-K9 and C12-K10 the scanned file is the saved file, and loading it restores the state. -/
 theorem load_save_restores_scanned_partial (app : App) (hwf : app.WF) (hcov : app.MetaCovers) (hrank : MetaRanked app.apropos)
     (rtoscVer appVer : Nat × Nat × Nat) (hrv : verOk rtoscVer = true) (hav : verOk appVer = true)
-    (s : State) (hs : app.Reachable s) (hk : hasPosInf app s = false) :
+    (s : State) (hs : app.Reachable s) (hk : hasInfOrNaN app s = false) (hm : hasMixedArray app s = false) :
     app.loadFile (scannedFile app rtoscVer appVer s) app.init = .ok s (app.save s).length := by
   have hb : scannedFile app rtoscVer appVer s = app.saveFile rtoscVer appVer s := by
     unfold scannedFile App.saveFile
@@ -302,10 +402,14 @@ theorem load_save_restores_scanned_partial (app : App) (hwf : app.WF) (hcov : ap
     apply List.map_congr_left
     intro l hl
     have : scansBack l = true := by
-      unfold hasPosInf at hk
-      rw [List.any_eq_false] at hk
-      have := hk l hl
-      simpa using this
+      unfold hasInfOrNaN at hk
+      unfold hasMixedArray at hm
+      rw [List.any_eq_false] at hk hm
+      have h1 := hk l hl
+      have h2 := hm l hl
+      unfold scansBack
+      simp only [Bool.not_eq_true, Bool.not_eq_false'] at h1 h2
+      rw [h1, h2]; rfl
     simp [this]
   rw [hb]
   exact load_save_restores app hwf hcov hrank rtoscVer appVer hrv hav s hs
